@@ -1,29 +1,352 @@
-//! Byzantine peer: rewrites an honest endpoint's cleartext before encryption (filled in
-//! by the C04 work; the state machine lives here so the interceptor stays simple).
+//! Byzantine peer: an otherwise honest s2n-quic endpoint whose cleartext is rewritten before
+//! encryption.  One planned rule fires per connection; the offending frame is PREPENDED to the
+//! honest payload, so everything after it in that packet is honest traffic that must not be
+//! processed once the frame has been rejected.
 
-use crate::{obs::Space, plan::ByzRule};
+use crate::{
+    obs::Space,
+    plan::{ByzKind, ByzRule, Role},
+    simtls::SharedTlsLog,
+    wire::{self, put_varint, Frame},
+};
+use std::collections::BTreeMap;
+
+#[derive(Default)]
+struct ConnState {
+    app_packets: u64,
+    hs_packets: u64,
+    /// own streams: id -> (max offset sent, fin at)
+    sent: BTreeMap<u64, (u64, Option<u64>)>,
+    /// stream ids seen from the victim
+    victim_streams: Vec<u64>,
+    /// limits received from the victim in frames
+    max_stream_data: BTreeMap<u64, u64>,
+    max_data: u64,
+    max_streams_bidi: u64,
+    max_streams_uni: u64,
+    own_new_cid: Vec<(u64, Vec<u8>)>,
+    victim_cid_seq_max: u64,
+    victim_largest_pn: u64,
+    fired: bool,
+}
 
 pub struct ByzState {
     pub rules: Vec<ByzRule>,
     pub is_client: bool,
+    pub tls: Option<SharedTlsLog>,
+    conns: BTreeMap<u64, ConnState>,
+}
+
+/// marker byte pattern of injected stream data (never equal to the payload oracle for long)
+pub const BYZ_FILL: u8 = 0xBD;
+
+fn stream_frame(out: &mut Vec<u8>, id: u64, off: u64, data_len: usize, fin: bool) {
+    // type 0x08 | OFF 0x04 | LEN 0x02 | FIN 0x01
+    out.push(0x08 | 0x04 | 0x02 | fin as u8);
+    put_varint(out, id);
+    put_varint(out, off);
+    put_varint(out, data_len as u64);
+    out.extend(std::iter::repeat(BYZ_FILL).take(data_len));
 }
 
 impl ByzState {
     pub fn new(rules: Vec<ByzRule>, is_client: bool) -> Self {
-        ByzState { rules, is_client }
+        ByzState { rules, is_client, tls: None, conns: BTreeMap::new() }
     }
     pub fn active(&self) -> bool {
         !self.rules.is_empty()
     }
-    pub fn on_rx(&mut self, _conn: u64, _space: Space, _payload: &[u8]) {}
+
+    fn victim_params(&self) -> Option<wire::PeerParams> {
+        let tls = self.tls.as_ref()?;
+        let log = tls.lock().ok()?;
+        let victim_role = if self.is_client { Role::Server } else { Role::Client };
+        let (_, _, bytes) = log.tp_sent.iter().find(|(r, _, _)| *r == victim_role)?;
+        let (entries, _) = wire::parse_tp_block(bytes).ok()?;
+        wire::tp_verdict(&entries, victim_role == Role::Client).ok()
+    }
+
+    pub fn on_rx(&mut self, conn: u64, space: Space, payload: &[u8]) {
+        if self.rules.is_empty() || space != Space::App {
+            return;
+        }
+        let c = self.conns.entry(conn).or_default();
+        let Ok((frames, _)) = wire::parse_frames(payload) else { return };
+        for f in frames {
+            match f {
+                Frame::Stream { id, .. } => {
+                    if !c.victim_streams.contains(&id) {
+                        c.victim_streams.push(id);
+                    }
+                }
+                Frame::MaxStreamData { id, max } => {
+                    let e = c.max_stream_data.entry(id).or_insert(0);
+                    *e = (*e).max(max);
+                }
+                Frame::MaxData { max } => c.max_data = c.max_data.max(max),
+                Frame::MaxStreams { bidi: true, max } => c.max_streams_bidi = c.max_streams_bidi.max(max),
+                Frame::MaxStreams { bidi: false, max } => c.max_streams_uni = c.max_streams_uni.max(max),
+                Frame::NewConnectionId { seq, .. } => c.victim_cid_seq_max = c.victim_cid_seq_max.max(seq),
+                _ => {}
+            }
+        }
+    }
+
+    pub fn note_rx_pn(&mut self, conn: u64, space: Space, pn: u64) {
+        if self.rules.is_empty() || space != Space::App {
+            return;
+        }
+        let c = self.conns.entry(conn).or_default();
+        c.victim_largest_pn = c.victim_largest_pn.max(pn);
+    }
+
+    /// returns the rewritten payload and a description when a rule fires
     pub fn on_tx(
         &mut self,
-        _conn: u64,
-        _space: Space,
+        conn: u64,
+        space: Space,
         _pn: u64,
-        _payload: &[u8],
-        _capacity: usize,
+        payload: &[u8],
+        capacity: usize,
     ) -> Option<(Vec<u8>, String)> {
-        None
+        if self.rules.is_empty() {
+            return None;
+        }
+        let is_client = self.is_client;
+        let tp = self.victim_params();
+        let c = self.conns.entry(conn).or_default();
+        // learn from the honest payload
+        if let Ok((frames, _)) = wire::parse_frames(payload) {
+            if space == Space::App {
+                for f in &frames {
+                    match f {
+                        Frame::Stream { id, off, len, fin, .. } => {
+                            let e = c.sent.entry(*id).or_insert((0, None));
+                            e.0 = e.0.max(off + *len as u64);
+                            if *fin {
+                                e.1 = Some(off + *len as u64);
+                            }
+                        }
+                        Frame::NewConnectionId { seq, cid, .. } => c.own_new_cid.push((*seq, cid.clone())),
+                        _ => {}
+                    }
+                }
+            }
+        }
+        match space {
+            Space::App => c.app_packets += 1,
+            _ => c.hs_packets += 1,
+        }
+        if c.fired {
+            return None;
+        }
+        let rule = self.rules.iter().find(|r| r.conn as u64 == conn || r.conn == u32::MAX)?.clone();
+        let in_hs_rule = matches!(rule.kind, ByzKind::AppFrameInHandshakeSpace { .. });
+        if in_hs_rule {
+            let want_initial = matches!(rule.kind, ByzKind::AppFrameInHandshakeSpace { initial: true });
+            if (want_initial && space != Space::Initial) || (!want_initial && space != Space::Handshake) {
+                return None;
+            }
+        } else {
+            if space != Space::App || c.app_packets <= rule.at_packet {
+                return None;
+            }
+        }
+        let tp = tp?;
+        // my own stream kinds: client-initiated ids are even
+        let my_bit = if is_client { 0 } else { 1 };
+        let mine = |id: u64| (id & 1) == my_bit;
+        let bidi = |id: u64| id & 2 == 0;
+        let initial_stream_credit = |id: u64| -> u64 {
+            // credit the victim granted me on stream `id`
+            if !bidi(id) {
+                tp.initial_max_stream_data_uni
+            } else if mine(id) {
+                tp.initial_max_stream_data_bidi_remote
+            } else {
+                tp.initial_max_stream_data_bidi_local
+            }
+        };
+        let max_streams = |b: bool| -> u64 {
+            if b {
+                c.max_streams_bidi.max(tp.initial_max_streams_bidi)
+            } else {
+                c.max_streams_uni.max(tp.initial_max_streams_uni)
+            }
+        };
+        // an open stream I may send on
+        let my_send_stream = c.sent.iter().find(|(id, (_, fin))| fin.is_none() && (mine(**id) || bidi(**id))).map(|(id, _)| *id);
+        let my_finished_stream = c.sent.iter().find(|(_, (_, fin))| fin.is_some()).map(|(id, v)| (*id, v.1.unwrap()));
+        let mut frame = Vec::new();
+        let desc: String;
+        match &rule.kind {
+            ByzKind::StreamBeyondStreamCredit { delta } => {
+                let id = my_send_stream?;
+                let credit = c.max_stream_data.get(&id).copied().unwrap_or(0).max(initial_stream_credit(id));
+                let off = credit.saturating_add(*delta).min(wire::VARINT_MAX - 2);
+                stream_frame(&mut frame, id, off, 1, false);
+                desc = format!("StreamBeyondStreamCredit stream {id} offset {off} (credit {credit})");
+            }
+            ByzKind::StreamBeyondConnCredit { delta } => {
+                let id = my_send_stream?;
+                let credit = c.max_data.max(tp.initial_max_data);
+                let off = credit.saturating_add(*delta).min(wire::VARINT_MAX - 2);
+                stream_frame(&mut frame, id, off, 1, false);
+                desc = format!("StreamBeyondConnCredit stream {id} offset {off} (conn credit {credit})");
+            }
+            ByzKind::StreamAtMaxOffset => {
+                let id = my_send_stream?;
+                stream_frame(&mut frame, id, wire::VARINT_MAX, 1, false);
+                desc = format!("StreamAtMaxOffset stream {id}");
+            }
+            ByzKind::StreamIdBeyondLimit { bidi: b, by } => {
+                let index = max_streams(*b) + by;
+                let id = index * 4 + my_bit + if *b { 0 } else { 2 };
+                if id > wire::VARINT_MAX {
+                    return None;
+                }
+                stream_frame(&mut frame, id, 0, 1, false);
+                desc = format!("StreamIdBeyondLimit stream {id} (limit {})", max_streams(*b));
+            }
+            ByzKind::DataAfterFin => {
+                let (id, f) = my_finished_stream?;
+                stream_frame(&mut frame, id, f, 1, false);
+                desc = format!("DataAfterFin stream {id} final {f}");
+            }
+            ByzKind::ChangedFinalSize { shrink } => {
+                let (id, f) = my_finished_stream?;
+                if *shrink {
+                    if f == 0 {
+                        return None;
+                    }
+                    stream_frame(&mut frame, id, f - 1, 0, true);
+                } else {
+                    stream_frame(&mut frame, id, f, 1, true);
+                }
+                desc = format!("ChangedFinalSize stream {id} final {f} shrink {shrink}");
+            }
+            ByzKind::ResetOtherFinalSize => {
+                let (id, f) = my_finished_stream?;
+                frame.push(0x04);
+                put_varint(&mut frame, id);
+                put_varint(&mut frame, 7);
+                put_varint(&mut frame, f + 1);
+                desc = format!("ResetOtherFinalSize stream {id} final {f}");
+            }
+            ByzKind::StreamOnPeerSendOnly => {
+                // a unidirectional stream initiated by the victim: I may only receive on it
+                let id = c.victim_streams.iter().copied().find(|id| !mine(*id) && !bidi(*id)).unwrap_or(2 + (1 - my_bit));
+                stream_frame(&mut frame, id, 0, 1, false);
+                desc = format!("StreamOnPeerSendOnly stream {id}");
+            }
+            ByzKind::MaxStreamDataForUnopenedLocal => {
+                // a bidirectional stream the victim would initiate but has not opened
+                let id = (1 << 20) * 4 + (1 - my_bit);
+                frame.push(0x11);
+                put_varint(&mut frame, id);
+                put_varint(&mut frame, 1 << 30);
+                desc = format!("MaxStreamDataForUnopenedLocal stream {id}");
+            }
+            ByzKind::StopSendingForUnopenedLocal => {
+                let id = (1 << 20) * 4 + (1 - my_bit);
+                frame.push(0x05);
+                put_varint(&mut frame, id);
+                put_varint(&mut frame, 9);
+                desc = format!("StopSendingForUnopenedLocal stream {id}");
+            }
+            ByzKind::ResetForUnopenedLocal => {
+                // RESET_STREAM for a send-only stream of the victim
+                let id = (1 << 20) * 4 + (1 - my_bit) + 2;
+                frame.push(0x04);
+                put_varint(&mut frame, id);
+                put_varint(&mut frame, 9);
+                put_varint(&mut frame, 0);
+                desc = format!("ResetForUnopenedLocal stream {id}");
+            }
+            ByzKind::MaxStreamsTooLarge { bidi: b } => {
+                frame.push(if *b { 0x12 } else { 0x13 });
+                put_varint(&mut frame, (1 << 60) + 1);
+                desc = "MaxStreamsTooLarge".into();
+            }
+            ByzKind::NewCidRetirePriorGtSeq => {
+                frame.push(0x18);
+                put_varint(&mut frame, 1000);
+                put_varint(&mut frame, 1001);
+                frame.push(8);
+                frame.extend_from_slice(&[0xC1; 8]);
+                frame.extend_from_slice(&[0x7E; 16]);
+                desc = "NewCidRetirePriorGtSeq".into();
+            }
+            ByzKind::NewCidBadLen { len } => {
+                frame.push(0x18);
+                put_varint(&mut frame, 1000);
+                put_varint(&mut frame, 0);
+                frame.push(*len);
+                frame.extend(std::iter::repeat(0xC2).take(*len as usize));
+                frame.extend_from_slice(&[0x7F; 16]);
+                desc = format!("NewCidBadLen {len}");
+            }
+            ByzKind::NewCidDupSeqOtherCid => {
+                let (seq, cid) = c.own_new_cid.first()?.clone();
+                frame.push(0x18);
+                put_varint(&mut frame, seq);
+                put_varint(&mut frame, 0);
+                frame.push(cid.len() as u8);
+                frame.extend(cid.iter().map(|b| b ^ 0xff));
+                frame.extend_from_slice(&[0x80; 16]);
+                desc = format!("NewCidDupSeqOtherCid seq {seq}");
+            }
+            ByzKind::RetireUnissuedSeq { by } => {
+                frame.push(0x19);
+                put_varint(&mut frame, c.victim_cid_seq_max + 1 + by);
+                desc = format!("RetireUnissuedSeq {}", c.victim_cid_seq_max + 1 + by);
+            }
+            ByzKind::HandshakeDoneFromClient => {
+                if !is_client {
+                    return None;
+                }
+                frame.push(0x1e);
+                desc = "HandshakeDoneFromClient".into();
+            }
+            ByzKind::NewTokenFromClient => {
+                if !is_client {
+                    return None;
+                }
+                frame.push(0x07);
+                put_varint(&mut frame, 8);
+                frame.extend_from_slice(&[0x70; 8]);
+                desc = "NewTokenFromClient".into();
+            }
+            ByzKind::AckNeverSent { ahead } => {
+                frame.push(0x02);
+                put_varint(&mut frame, c.victim_largest_pn + 1000 + ahead);
+                put_varint(&mut frame, 0);
+                put_varint(&mut frame, 0);
+                put_varint(&mut frame, 0);
+                desc = format!("AckNeverSent {}", c.victim_largest_pn + 1000 + ahead);
+            }
+            ByzKind::UnknownFrameType { ty } => {
+                put_varint(&mut frame, *ty);
+                desc = format!("UnknownFrameType {ty:#x}");
+            }
+            ByzKind::AppFrameInHandshakeSpace { initial } => {
+                stream_frame(&mut frame, my_bit, 0, 1, false);
+                desc = format!("AppFrameInHandshakeSpace initial={initial}");
+            }
+            ByzKind::CryptoBeyondBuffer => {
+                frame.push(0x06);
+                put_varint(&mut frame, 1 << 40);
+                put_varint(&mut frame, 1);
+                frame.push(0);
+                desc = "CryptoBeyondBuffer".into();
+            }
+        }
+        if payload.len() + frame.len() > capacity {
+            return None; // no room in this packet: try the next one
+        }
+        c.fired = true;
+        let mut new = frame;
+        new.extend_from_slice(payload);
+        Some((new, desc))
     }
 }
